@@ -116,11 +116,11 @@ func sortKeyCond(kind, attr string, pool []string, r *rand.Rand, values val.Item
 		values[":lo"], values[":hi"] = val.Str(a), val.Str(b)
 		return &refmodel.Cond{Op: "between", Args: []refmodel.Operand{p, {Kind: "val", Val: ":lo"}, {Kind: "val", Val: ":hi"}}}
 	case "begins":
-		pres := []string{"1", "a", "ab", "9", "b"}
+		pres := []string{"1", "a", "ab", "9", "b", "\U0001F44D"}
 		if ixBig {
 			// prefixes of the scaled pools: a whole pool member, all but its last byte, a 64-byte prefix of the long ones
 			m := mon.Pick(r, pool)
-			pres = append(pres, m, m[:len(m)-1], "é", "é1")
+			pres = append(pres, m, m[:len(m)-1], "é", "é1", "\U0001F44D", "\uffff")
 			if len(m) > 64 {
 				pres = append(pres, m[:64])
 			}
